@@ -111,7 +111,7 @@ func (x *c20SX) typeSwitchOn(s *ast.TypeSwitchStmt, v c20V, st *c20St) []*c20St 
 	}
 	var out []*c20St
 	for _, o := range x.block(chosen.Body, []*c20St{st}) {
-		if o.ctl == c20cBrk {
+		if o.ctl == c20cBrk && o.lbl == "" {
 			o.ctl = c20cRun
 		}
 		out = append(out, o)
